@@ -215,7 +215,22 @@ func Submit(nd *chainx.Node, blocks []types.Block) (res string) {
 			res = "panic"
 		}
 	}()
+	if nd.Probe != nil {
+		var err error
+		nd.Probe.Writer("AddBlocks", func() { err = nd.CM.AddBlocks(blocks) })
+		return ErrKind(err)
+	}
 	return ErrKind(nd.CM.AddBlocks(blocks))
+}
+
+// AuditProbe reports what the atomicity probe of a probed node saw (chainx.ProbeStore).
+func AuditProbe(c *vh.Case, nd *chainx.Node) {
+	if nd.Probe == nil {
+		return
+	}
+	for _, f := range nd.Probe.Found() {
+		c.Oracle("manager-readable-in-the-middle-of-a-change", "%s", f)
+	}
 }
 
 func heavier(a, b *chainx.B) bool {
@@ -377,6 +392,11 @@ func SubmitV2(t *chainx.Tree, nd *chainx.Node, batch []int, nStates int) (res st
 			states = append(states, t.Blocks[batch[len(batch)-1]].Full)
 		}
 	}
+	if nd.Probe != nil {
+		var err error
+		nd.Probe.Writer("AddValidatedV2Blocks", func() { err = nd.CM.AddValidatedV2Blocks(t.Get(batch), states) })
+		return ErrKind(err)
+	}
 	return ErrKind(nd.CM.AddValidatedV2Blocks(t.Get(batch), states))
 }
 
@@ -416,6 +436,10 @@ func onPath(t *chainx.Tree, leaf, x int) bool {
 // "addv2" (AddValidatedV2Blocks) or "" (the default rule).
 func RunTreeModes(r *vh.Run, name string, t *chainx.Tree, sched [][]int, modes []string) {
 	nd := t.Net.MustNode()
+	if strings.HasSuffix(name, "/s0") || strings.Contains(name, "shorter-heavier") {
+		// one schedule per tree runs with the atomicity probe on the manager's store
+		nd = t.Net.NewProbedNode()
+	}
 	c := &vh.Case{Name: name, Model: "chain mgr"}
 	for _, b := range t.Blocks[1:] {
 		c.Op(b.DeclLine(), "ok")
@@ -472,6 +496,7 @@ func RunTreeModes(r *vh.Run, name string, t *chainx.Tree, sched [][]int, modes [
 		}
 		Audit(c, t, nd, res, before, beforeState, beforeTip, beforeN, tainted)
 		AuditStoredStates(c, t, nd, tainted)
+		AuditProbe(c, nd)
 		if mode != "addv2" && !(mode == "" && strings.HasPrefix(sb.String(), "addv2")) {
 			AuditAdopted(c, t, nd, res, batch, beforeTip)
 		}
